@@ -199,8 +199,11 @@ class SubQueryLineageHolder(ColumnLineageMixin):
             for src, tgt, attr in self.graph.edges(data=True)
             if attr.get("type") == EdgeType.HAS_ALIAS and src in table_group
         }
+        # once a table is given an alias, its bare name is not exposed any more
         unqualified_map = {
-            table.raw_name: table for table in table_group if isinstance(table, Table)
+            table.raw_name: table
+            for table in table_group
+            if isinstance(table, Table) and table.alias == table.raw_name
         }
         qualified_map = {
             str(table): table for table in table_group if isinstance(table, Table)
